@@ -39,6 +39,12 @@ inductive Watch where
   | layer (l : Id)
 deriving DecidableEq, Repr
 
+/-- `if baseGlyph in layer: _beginBaseGlyphObservations() else: _beginLayerObservations()`, given what layer `l`
+files under the base glyph name -/
+def Watch.of (l : Id) : Option Id → Watch
+  | some o => .glyph l o
+  | none => .layer l
+
 structure State where
   heap : Heap := {}
   /-- component → `baseGlyph` (absent = `None`) -/
@@ -52,10 +58,7 @@ def watchOf (s : State) (c : Id) : Option Watch :=
   match s.heap.kindOf c, s.baseOf c with
   | some .component, some b =>
     match dispOf s.heap c, layerOf s.heap c with
-    | some _, some l =>
-      some (match s.heap.findNamed l .glyph b with
-        | some o => .glyph l o
-        | none => .layer l)
+    | some _, some l => some (Watch.of l (s.heap.findNamed l .glyph b))
     | _, _ => none
   | _, _ => none
 
@@ -206,6 +209,12 @@ def flatCount (s : State) (l : Id) : Nat → String → Nat
           | some b' => flatCount s l fuel b'
           | none => 0).sum
 
+/-- the contours `glyph.decomposeComponent(c)` adds to a glyph of layer `l` -/
+def decomposeCount (s : State) (l c : Id) : Nat :=
+  match s.baseOf c with
+  | some b => flatCount s l 6 b
+  | none => 0
+
 def xstep (s : State) : Op → State × Res
   | .base (.mutate x) => xmutate s x
   | .base (.insertGlyph l src name) =>
@@ -249,11 +258,7 @@ def xstep (s : State) : Op → State × Res
     else
       match layerOf s.heap g with
       | none => (s, .err .detached)
-      | some l =>
-        let n := match s.baseOf c with
-          | some b => flatCount s l 6 b
-          | none => 0
-        ({ s with heap := removeChild (spawnMany s.heap g .contour n) g c }, .ok)
+      | some l => ({ s with heap := removeChild (spawnMany s.heap g .contour (decomposeCount s l c)) g c }, .ok)
 
 def xrun (s : State) (ops : List Op) : State := ops.foldl (fun s op => (xstep s op).1) s
 
